@@ -175,6 +175,11 @@ def teval(t: Term, env: dict):
             raise Unknown(f"idx: {e}")
     if op == "meth:to_bytes":
         return ev(a[0]).to_bytes(*[ev(x) for x in a[1:]])
+    if op in ("meth:bit_length", "meth:bit_count") and len(a) == 1:
+        v_ = ev(a[0])
+        if not isinstance(v_, int):
+            raise Unknown(f"{op} of {type(v_).__name__}")
+        return getattr(v_, op[5:])()
     if op in ("meth:ljust", "meth:rjust", "meth:zfill", "meth:center"):
         return getattr(ev(a[0]), op[5:])(*[ev(x) for x in a[1:]])
     if op in ("call:struct.pack", "call:struct.calcsize", "call:struct.Struct") or (
